@@ -131,6 +131,21 @@ def run(repo: Repo, rep: Report, tier: str) -> None:
     ok = ok and "prop_data.get('operator')" in srcs["comparator"] and "prop_data.get('constant')" in srcs["constant"]
     rep.check(ok, "C06-R3", "the emitter applies (wildcard, operator, constant) unchanged", norm(sc[0]) if sc else "", ap.loc(bb) if bb else ap.loc())
 
+    rep.rule("C06-R6", "a constant that drives an entity property is exported (record_export on IREntityPropWrite.value) and exported constants are always materialised, so the entity's condition has a wired source")
+    an_ = repo.func("SignalAnalyzer.analyze")
+    exp = [c for c in calls_in(an_.node, "record_export") if norm(c.args[0]) == "op.value"]
+    rep.check(bool(exp), "C06-R6", "analyze exports the value of every entity property write", norm(exp[0])[:80] if exp else "record_export(op.value, ...) missing", an_.loc())
+    dm = repo.func("SignalAnalyzer._decide_materialization")
+    fin = [n for n in walk_local(dm.node) if isinstance(n, ast.Assign) and norm(n.targets[0]) == "entry.should_materialize" and isinstance(n.value, ast.Call) and call_name(n.value) == "bool"]
+    terms = {norm(v) for v in fin[0].value.args[0].values} if fin and isinstance(fin[0].value.args[0], ast.BoolOp) else set()
+    rep.check("entry.export_targets" in terms, "C06-R6", "a constant exported to an entity property is materialised",
+              "export_targets is a reason to materialise" if "entry.export_targets" in terms else
+              f"materialisation reasons {sorted(terms)} omit export_targets: `lamp.enable = <expression folding to a positive constant>` leaves the lamp with a condition and no wire", dm.loc(fin[0]) if fin else dm.loc())
+
+    rep.rule("C06-R5", "the constant of an inlined any()/all() condition is resolved the way the expression itself would be: name resolvers consult the parameter environment first")
+    from .shared import identifier_resolvers
+    identifier_resolvers(repo, rep, "C06-R5")
+
     # ---------------- R4 ---------------------------------------------------------------
     rep.rule("C06-R4", "an entity output / property read registers the entity itself as the source in the signal graph (so it is wired once per consumer by the ordinary edge machinery)")
     for name in ("_place_entity_output", "_place_entity_prop_read"):
